@@ -337,13 +337,109 @@ def run_case(jp, case, res, desc_extra=None):
     def fail(sig, detail):
         fails.append((sig, detail))
 
+    def cur_cfg():
+        """The calling thread's active configuration dict.  Read from joblib's thread-local store when it is where this tree
+        keeps it; otherwise through the context-manager object itself (a parallel_config() made with no argument records the
+        configuration it found as `old_parallel_config` and restores it on unregister())."""
+        st = getattr(jp, "_backend", None)
+        if isinstance(st, threading.local):
+            return getattr(st, "config", jp.default_parallel_config)
+        pc = jp.parallel_config()
+        try:
+            return pc.old_parallel_config
+        finally:
+            pc.unregister()
+
     def raw_cfg():
-        c = getattr(jp._backend, "config", jp.default_parallel_config)
+        c = cur_cfg()
         return tuple(c[k] for k in KEYS)
 
     def cfg_tokens():
-        c = getattr(jp._backend, "config", jp.default_parallel_config)
+        c = cur_cfg()
         return [tok_live(jp, c[k], k) for k in KEYS]
+
+    def foreign_thread_probe():
+        """"other threads never observe them": while THIS thread is inside a block, threads of every kind - a plain
+        thread, a thread running in a COPY of this thread's contextvars context, asyncio.to_thread - see the defaults."""
+        import asyncio
+        import contextvars
+
+        def observe():
+            p = jp.Parallel()
+            return (type(p._backend).__name__, p.n_jobs, p.verbose)
+
+        base = observe()
+        seen = {}
+        with jp.parallel_config(backend="threading", n_jobs=3, verbose=7):
+            inside = observe()
+            t = threading.Thread(target=lambda: seen.__setitem__("plain-thread", observe()))
+            t.start(); t.join()
+            ctx = contextvars.copy_context()
+            t = threading.Thread(target=lambda: seen.__setitem__("thread-in-copied-context", ctx.run(observe)))
+            t.start(); t.join()
+            seen["asyncio.to_thread"] = asyncio.run(asyncio.to_thread(observe))
+        after = observe()
+        if inside == base:
+            return
+        for how, got in seen.items():
+            if got != base:
+                fail("thread:other-thread-sees-settings-of-the-entering-thread", dict(how=how, got=got, defaults=base, inside=inside))
+        if after != base:
+            fail("scope:settings-survive-the-block", dict(after=after, defaults=base))
+
+    def unbalanced_probe():
+        """"on exit - normal or by exception, at any nesting depth - the previous settings are back": also when the body of
+        the block left ANOTHER configuration active (parallel_backend(...) / parallel_config(...) used as a plain call, not
+        unregistered - by design or because the code raised before it could)."""
+        def observe():
+            p = jp.Parallel()
+            return (type(p._backend).__name__, p.n_jobs, p.verbose)
+
+        base = observe()
+        for depth, by_exc, inner in [(1, False, "backend"), (2, False, "config"), (2, True, "backend"), (3, True, "config")]:
+            try:
+                with contextlib.ExitStack() as st:
+                    for d in range(depth):
+                        st.enter_context(jp.parallel_config(n_jobs=2 + d, verbose=5 + d))
+                    if inner == "backend":
+                        jp.parallel_backend("threading", n_jobs=4)      # never unregistered
+                    else:
+                        jp.parallel_config(backend="threading", verbose=9)  # never unregistered
+                    if by_exc:
+                        raise KeyError("leave by exception")
+            except KeyError:
+                pass
+            after = observe()
+            if after != base:
+                fail("scope:previous-settings-not-back-after-a-block-whose-body-left-a-configuration-active",
+                     dict(depth=depth, by_exception=by_exc, inner=inner, after=after, before=base))
+                # put the thread back for the rest of the case
+                st_ = getattr(jp, "_backend", None)
+                if isinstance(st_, threading.local) and hasattr(st_, "config"):
+                    del st_.config
+                break
+
+    def gab_probe():
+        """The public observation point get_active_backend() with no argument sees what a Parallel() made at the same place
+        gets: the context's hints and constraints apply (require='sharedmem' always yields a thread-based backend)."""
+        for kw in (dict(backend="loky", n_jobs=4, require="sharedmem"), dict(prefer="threads"), dict(require="sharedmem"),
+                   dict(backend="threading", n_jobs=3), dict(prefer="processes", n_jobs=2)):
+            try:
+                with jp.parallel_config(**kw):
+                    b, n = jp.get_active_backend()
+                    p = jp.Parallel()
+            except Exception:  # noqa: BLE001 - a rejected context is not this probe's business
+                continue
+            got, want = (type(b).__name__, n), (type(p._backend).__name__, p.n_jobs)
+            if kw.get("require") == "sharedmem" and not getattr(b, "supports_sharedmem", False):
+                fail("sharedmem:get_active_backend-reports-a-backend-without-shared-memory", dict(context=kw, got=got, parallel_gets=want))
+            elif got[0] != want[0] or (n is not None and n != p.n_jobs):
+                # (n_jobs None = "not set anywhere": Parallel resolves it to its default, get_active_backend reports None)
+                fail("precedence:get_active_backend-disagrees-with-Parallel", dict(context=kw, got=got, parallel_gets=want))
+
+    foreign_thread_probe()
+    unbalanced_probe()
+    gab_probe()
 
     def check_frame(tid):
         """My configuration is what I left it at (no other thread's step changed it)."""
